@@ -17,7 +17,7 @@ RULE = ('Each run draws: serial or 2..6 simulated ranks (with the rank schedule,
         'buffers), trajectory lengths, data, metric, stopping rule (n_clusters, cutoff placed between two radii of '
         'the greedy replay, both; None/inf spellings), function or estimator form, triangle shortcut on/off, '
         'initial centres (serial; including ones that already satisfy the stopping rule). Non-trivial: at least two '
-        'centres were chosen or a stopping decision was exercised; distinct = digest of configuration, data and '
+        'centres were chosen or a stopping decision was exercised; In the thorough tier a quarter of the runs use deeper bounds (up to 10-12 ranks, 120-150 frames, 30-36 trajectories, 16 centres). distinct = digest of configuration, data and '
         'rank schedule.')
 BUDGET = {'quick': dict(runs=4000, wall_s=55, chunk=25), 'thorough': dict(runs=80000, wall_s=780, chunk=50)}
 COMPONENTS = {'real': ['enspara.cluster.kcenters (serial and MPI iteration)', 'enspara.cluster.util',
@@ -35,7 +35,9 @@ def scenario(ctx):
     t = ctx.tape
     e = C.E()
     mpi = t.flag(2, 5)
-    P = C.Problem(ctx, want_ranks=mpi, max_ranks=6, max_frames=40 if not t.flag(1, 4) else 9)
+    deep = ctx.tier == 'thorough' and t.flag(1, 4)
+    P = C.Problem(ctx, want_ranks=mpi, max_ranks=10 if deep else 6, max_frames=(150 if deep else 40) if not t.flag(1, 4) else 9,
+                  max_traj=30 if deep else 24, max_len=14 if deep else 9)
     if mpi and P.N == 1 and t.flag():
         mpi = False
     k, cutoff = P.draw_stop(ctx)
